@@ -351,7 +351,11 @@ pub fn run_one_case(prop: &str, rng: &mut Rng, case: &Case, thorough: bool, t: &
         }
         for am in alloc_modes(prop) {
             for chunk in jobs.chunks(sys::MAX_CFG) {
-                let o = RunOpts { alloc_mode: am, ceiling_s: if thorough { 20 } else { 10 }, ..Default::default() };
+                let ceiling = match prop {
+                    "C07" | "C08" => 3,
+                    _ => if thorough { 20 } else { 10 },
+                };
+                let o = RunOpts { alloc_mode: am, ceiling_s: ceiling, ..Default::default() };
                 let obs = run_case(&case.code, chunk, &o);
                 for (job, ob) in chunk.iter().zip(obs.iter()) {
                     t.inc("evaluations", 1);
